@@ -8,6 +8,7 @@ type c09Recipe struct {
 	Name string
 	Gen  func() (*Password, error)
 	Det  bool // output is a deterministic function of the tape (no map-ordered alphabet involved)
+	Fix  bool // the number of bytes consumed is a deterministic function of the tape (no requirement whose rejections depend on the map-ordered alphabet)
 }
 
 func c09Recipes() []c09Recipe {
@@ -24,14 +25,17 @@ func c09Recipes() []c09Recipe {
 	return []c09Recipe{
 		{"chars len 6 require digits", func() (*Password, error) {
 			return CharRecipe{Length: 6, Allow: Letters, Require: Digits}.Generate()
-		}, false},
+		}, false, false},
+		{"chars len 8 letters and digits", func() (*Password, error) {
+			return CharRecipe{Length: 8, Allow: Letters | Digits}.Generate()
+		}, false, true},
 		{"chars len 3 custom", func() (*Password, error) {
 			return CharRecipe{Length: 3, AllowChars: "abcdefg", RequireSets: []string{"xy"}}.Generate()
-		}, false},
-		{"words 3 one-cap const sep", mk(3, CSOne, nil, "-"), true},
-		{"words 4 random-cap", mk(4, CSRandom, nil, ""), true},
-		{"words 3 digit separator", mk(3, CSNone, SFDigits1, ""), false},
-		{"words 2 first-cap two-digit separator", mk(2, CSFirst, SFDigitsNoAmbiguous2, ""), false},
+		}, false, false},
+		{"words 3 one-cap const sep", mk(3, CSOne, nil, "-"), true, true},
+		{"words 4 random-cap", mk(4, CSRandom, nil, ""), true, true},
+		{"words 3 digit separator", mk(3, CSNone, SFDigits1, ""), false, true},
+		{"words 2 first-cap two-digit separator", mk(2, CSFirst, SFDigitsNoAmbiguous2, ""), false, true},
 	}
 }
 
@@ -76,7 +80,7 @@ func TestVerifReplay(t *testing.T) {
 				var p *Password
 				var err error
 				pn := vWithTape(tp, func() { p, err = rc.Gen() })
-				if pn == nil && err == nil && p != nil {
+				if pn == nil && err == nil && p != nil && tp.reads > k { // the failing read was actually requested in this run
 					vReport(vHit{Input: inp{rc.Name, data[:16], "error returned by the source", k}, Observed: "Generate returned password " + p.String() + " although read " + vSprint(k) + " of the random source failed",
 						Required: "panic or error, no password (fail closed)"})
 					return
@@ -87,7 +91,7 @@ func TestVerifReplay(t *testing.T) {
 				var ps *Password
 				pn = vWithTape(ts, func() { ps, err = rc.Gen() })
 				if pn == nil && err == nil && ps != nil {
-					if ts.pos != base.pos || (rc.Det && ps.String() != p0.String()) {
+					if (rc.Fix && ts.pos != base.pos) || (rc.Det && ps.String() != p0.String()) {
 						vReport(vHit{Input: inp{rc.Name, data[:16], "short read (no error)", k}, Observed: "consumed " + vSprint(ts.pos) + " bytes and returned " + ps.String(),
 							Required: "same bytes consumed (" + vSprint(base.pos) + ") and same choices (" + p0.String() + ") as with full reads: unfilled buffer bytes must never be used"})
 						return
@@ -100,7 +104,7 @@ func TestVerifReplay(t *testing.T) {
 			var pc *Password
 			var err error
 			pn := vWithTape(tc, func() { pc, err = rc.Gen() })
-			if pn != nil || err != nil || pc == nil || tc.pos != base.pos || (rc.Det && pc.String() != p0.String()) {
+			if pn != nil || (rc.Fix && (err != nil || pc == nil || tc.pos != base.pos)) || (rc.Det && pc != nil && pc.String() != p0.String()) {
 				vReport(vHit{Input: inp{rc.Name, data[:16], "source delivers one byte per read", -1}, Observed: vSprint("panic=", pn, " err=", err, " consumed=", tc.pos),
 					Required: "same result as with full reads"})
 				return
